@@ -4,6 +4,7 @@ CONSTANTS
   Clusters = {"c1", "c2"}
   HFronts = {"f1", "f2", "f3", "f4"}
   TFronts = {"t1", "t2"}
+  UFronts = {}
   Backends = {"b1", "b2", "b3"}
   Verbs <- VerbsAll
   MaxReq = 64
